@@ -72,7 +72,7 @@ func C04(r *Run) {
 	}
 	st := modelFiles(r, "C04")
 	FilesShardFraction = 1
-	sst := modelStreams(r, r.Pick(4, 6))
+	sst := modelStreams(r, r.Pick(4, 5))
 	r.Logf("stream model: %d line sequences read as YAML and TOML, LF and CRLF", sst.Replayed)
 	r.Logf("model: %d (chain, format assignment) layouts replayed", st.Replayed)
 	g := gen.New(r.Seed*715225739 + 4)
@@ -236,6 +236,7 @@ func C04(r *Run) {
 		}(l)
 	}
 	wg.Wait()
+	r.Cov["long_line_texts_compared_outside_tlc"] = longLineCheck(r)
 	r.Cov["format_corpus_texts"] = len(corpus)
 	r.Cov["format_corpus_skipped_by_independent_decoder"] = corpusSkipped
 	r.Cov["style_variants_used"] = styleUsed
